@@ -187,13 +187,17 @@ def offset(repo: Repo, chk: Check) -> None:
                 n_str += 1
                 u = _unit(cone)
                 if u is None:
-                    raise AnalysisError(f"{s.where()}: whether this stride is taken from the byte map or the element map of the memref type is not recognised")
+                    continue  # not computed from a map of the memref type here (e.g. a value taken over from another operand)
                 units.append((f"stride#{n_str}", u, s))
     for k_, s in enumerate(adds):
         u = _unit(fl.cone(s.node.args[1], s, inline=0))  # type: ignore[attr-defined]
         if u is None:
+            if chk.unlisted():
+                continue
             raise AnalysisError(f"{s.where()}: whether the pointer shift is taken from the byte map or the element map of the memref type is not recognised")
         units.append((f"pointer-shift#{k_ + 1}", u, s))
+    if not any(lab.startswith("stride") for lab, _, _ in units):
+        raise AnalysisError(f"{f.where}: whether the strides are taken from the byte map or the element map of the memref type is not recognised")
     for lab, u, s in units:
         chk.result(u == "bytes", "C02.offset", f"{LAYRES}:LayoutResolution:unit:{lab}", s.where(), "the value is in bytes",
                    f"this value is in {u}, the streamers and the pointer arithmetic work in bytes: for an element type wider than one byte "
